@@ -463,7 +463,7 @@ func init() {
 		Level: "exploration",
 		Rule: "cases (direct): every sequence (quick length<=5, thorough <=6) over the alphabet {coalescable user events x,y @ Lamport time 1,2,3; non-coalescable user events x@2, y@3; a member event; a query} x every subset of positions after which Flush is called, plus one final Flush, on the real userEventCoalescer; a second alphabet with boundary values (names \"\" and x, Lamport times 0, 1, 2^64-1, length<=4); the same letter twice = tie with distinct payloads; Handle's verdict is checked for every event, each flush output is compared per name in order. " +
 			"cases (loop): every script of length<=5 (thorough 6) over {x@1, x@2, y@2, non-coalescable x@2, member event, query, advance 1s, advance 2s} followed by shutdown, through the real coalesceLoop under the controlled scheduler with virtual time (coalesce period 4s, quiescent period 3s). " +
-			"All cases are distinct by construction; non-trivial (direct) = within one quantum some name received >=2 coalescable events (a newest-selection or a tie); non-trivial (loop) = at least one timer-driven flush or a pass-through event during an open quantum",
+			"All cases are distinct by construction; non-trivial (direct) = within one quantum some name received >=2 coalescable events (a newest-selection or a tie); non-trivial (loop) = at least one timer-driven flush or a pass-through event during an open quantum. slow-application/user-events (shared with C16): an application that does not read its channel for a while, under the controlled scheduler",
 		Assumptions: []string{
 			"the coalescer is constructed as serf.Create constructs it (one empty map); Handle/Coalesce/Flush are called from one thread, as coalesceLoop does",
 			"the order between different names inside one flush is unspecified (Flush iterates a Go map); per name the order must be arrival order",
@@ -476,6 +476,8 @@ func init() {
 
 func c18run(ctx *vc.Ctx) {
 	defer c17gcSetup()()
+	// the real coalesceLoop in front of an application that stops reading for a while (c16.go)
+	c16slowApp(ctx, 1, true)
 	if ctx.Replay != nil {
 		var r c18replay
 		if json.Unmarshal(ctx.Replay, &r) != nil {
